@@ -4,6 +4,7 @@ CONSTANTS OFFBYONE = FALSE
   NULLZERO = FALSE
   KEYGEN0 = FALSE
   DECRYPTMEMBERS = TRUE
+  TRAILERMERGE = FALSE
   Objs = {1, 2, 3}
   MaxRevs = 2
   Styles = {"one", "each", "runs"}
